@@ -54,6 +54,21 @@ lemma blocks_seeded (seeds : Seeds) (hs : Seeded seeds) (cs : List Nat) : ∀ S 
     obtain ⟨b, _, rfl⟩ := hS
     simp [Seeded, Seeds.seed]
 
+/-- every block of `Seeds.blocks` passes the constructor of the block transform unchanged: a scalar seed because the whole
+transform then has `samples = 1`, a block of the seed distribution through the branch added by fix 7971a31d -/
+lemma rebuild_blocks (seeds : Seeds) (cs : List Nat) :
+    (seeds.blocks cs).mapM (rebuild seeds.count) = .ok (seeds.blocks cs) := by
+  cases seeds with
+  | scalar s => simp [Seeds.blocks, Seeds.count, rebuild, List.mapM_cons, bind, Except.bind, pure, Except.pure]
+  | dist vs =>
+    simp only [Seeds.blocks]
+    generalize splitBy cs vs = l
+    induction l with
+    | nil => rfl
+    | cons x xs ih =>
+      simp only [List.map_cons, List.mapM_cons, rebuild, bind, Except.bind] at ih ⊢
+      rw [ih]; rfl
+
 lemma assemble_congr (dB : List Dose) (sB : List Seeds) (iB : List (List (List Rat)))
     (blk blk' : Nat → Nat → Nat → Dose → Seeds → List (List Rat) → Arr4 Int)
     (h : ∀ a b c D S I, S ∈ sB → blk a b c D S I = blk' a b c D S I) :
@@ -104,12 +119,11 @@ theorem reproducible_eager (K : Kernels) (seeds : Seeds) (hs : Seeded seeds) (do
 theorem reproducible_lazy (K : Kernels) (seeds : Seeds) (hs : Seeded seeds) (dose : Dose) (ch : Chunking) (ent ent' : Nat → Nat)
     (items : List (List Rat)) : lazyEval K seeds dose ch ent items = lazyEval K seeds dose ch ent' items := by
   unfold lazyEval
-  split_ifs with h
-  · rfl
-  · congr 1
-    apply assemble_congr
-    intro a b c D S I hS
-    exact calcBlock_seeded K S (blocks_seeded seeds hs _ S hS) D _ _ _ I
+  simp only [rebuild_blocks]
+  congr 1
+  apply assemble_congr
+  intro a b c D S I hS
+  exact calcBlock_seeded K S (blocks_seeded seeds hs _ S hS) D _ _ _ I
 
 /-- **Seed 0 is a seed.**  `seed=None` (OS entropy) and the integer seed `0` are different inputs of the seed derivation:
 `0` selects the seeded branch like every other integer (a Python truthiness test `if self.seeds:` would conflate the two),
@@ -186,7 +200,9 @@ theorem single_block_lazy_eq_eager (K : Kernels) (seeds : Seeds) (dose : Dose) (
     cases seeds <;> simp [Seeds.blocks, Seeds.count, splitBy]
   have hi : splitBy [items.length] items = [items] := by simp [splitBy]
   unfold lazyEval
-  simp only [hd, hsd, hi, rebuildOk, List.any_cons, List.any_nil, Bool.not_true, Bool.or_false, Bool.false_eq_true, if_false]
+  have hrb := rebuild_blocks seeds [seeds.count]
+  rw [hsd] at hrb
+  simp only [hd, hsd, hi, hrb]
   congr 1
   unfold assemble eager
   simp only [List.zipIdx_singleton, List.map_cons, List.map_nil, List.flatten_cons, List.flatten_nil, List.append_nil,
@@ -197,11 +213,23 @@ theorem single_block_lazy_eq_eager (K : Kernels) (seeds : Seeds) (dose : Dose) (
   unfold calcBlock
   exact (reshape4_eq_rows _ _ _ _ _).symm
 
-/-- **No chunking makes the lazy evaluation fail** (before the fix a chunked sample axis raised AssertionError). -/
+/-- **No chunking makes the lazy evaluation fail.**  The only way a lazy block can fail is the re-construction of the block
+transform (`rebuild`, the branches of `NoiseTransform.__init__`); `rebuild_blocks` shows that every block of every chunking of the
+sample axis is accepted. -/
 theorem lazy_never_fails (K : Kernels) (seeds : Seeds) (dose : Dose) (ch : Chunking) (ent : Nat → Nat) (items : List (List Rat)) :
     ∃ a, lazyEval K seeds dose ch ent items = .ok a := by
   unfold lazyEval
-  simp [rebuildOk]
+  simp only [rebuild_blocks]
+  exact ⟨_, rfl⟩
+
+/-- Before fix 7971a31d the constructor rejected exactly the proper blocks of the sample axis: a block is accepted iff it is the
+whole distribution.  (Hence lazy `poisson_noise(samples > 1)` raised AssertionError as soon as "auto" chunking split that axis.) -/
+theorem prefix_rebuild_accepts_iff_whole (samples : Nat) (vs : List Int) :
+    (∃ b, rebuildPreFix samples (.dist vs) = .ok b) ↔ vs.length = samples := by
+  by_cases h : vs.length = samples <;> simp [rebuildPreFix, h]
+
+/-- … whereas the repaired constructor accepts every block, and returns it unchanged -/
+theorem rebuild_accepts_every_block (samples : Nat) (vs : List Int) : rebuild samples (.dist vs) = .ok (.dist vs) := rfl
 
 /-- **Valid sampler input**: every Poisson rate handed to the sampler is non-negative (negative intensities are clipped),
 so `RandomState.poisson` never sees an invalid rate. -/
